@@ -306,13 +306,19 @@ class Facts:
     def subclasses(self, base: str) -> List[str]:
         return [q for q in self.classes if base in self.mro(q)]
 
-    def all_fields(self, qual: str) -> List[Tuple[str, Optional[ast.AST], Optional[ast.AST], str]]:
-        """Dataclass fields in definition order (base first)."""
+    def all_fields(self, qual: str, ctor: bool = False) -> List[Tuple[str, Optional[ast.AST], Optional[ast.AST], str]]:
+        """Annotated instance attributes in definition order (base first); ClassVar annotations are class attributes, not
+        fields.  ctor=True: the parameters of the generated dataclass __init__ - only classes that are themselves dataclasses
+        contribute (annotations of a plain mixin are not fields)."""
         out: List[Tuple[str, Optional[ast.AST], Optional[ast.AST], str]] = []
         for q in reversed(self.mro(qual)):
             ci = self.classes.get(q)
             if ci:
+                if ctor and not ci.is_dataclass:
+                    continue
                 for n, a, d in ci.fields:
+                    if a is not None and 'ClassVar' in ast.dump(a):
+                        continue
                     out = [x for x in out if x[0] != n]
                     out.append((n, a, d, q))
         return out
